@@ -28,6 +28,9 @@ pub struct Facts {
     pub hub: String,
     pub failing: Vec<String>,                              // contract addresses whose smart queries fail
     pub smart: Vec<(String, String, Value)>,               // (contract, top-level key of the query, response)
+    // answers of the single-validator Delegation query that override the list above:
+    // (validator or "*", present, amount, can_redelegate)
+    pub full_delegations: Vec<(String, bool, Uint128, Uint128)>,
 }
 
 impl Querier for Facts {
@@ -78,6 +81,23 @@ impl Querier for Facts {
                 SystemResult::Ok(ContractResult::Ok(
                     to_json_binary(&AllDelegationsResponse { delegations }).unwrap(),
                 ))
+            }
+            QueryRequest::Staking(StakingQuery::Delegation { delegator, validator })
+                if self.full_delegations.iter().any(|f| f.0 == validator || f.0 == "*") =>
+            {
+                let f = self.full_delegations.iter().find(|f| f.0 == validator || f.0 == "*").unwrap();
+                let delegation = if f.1 {
+                    Some(cosmwasm_std::FullDelegation {
+                        delegator: Addr::unchecked(delegator.clone()),
+                        validator: validator.clone(),
+                        amount: Coin { denom: "usei".to_string(), amount: f.2 },
+                        can_redelegate: Coin { denom: "usei".to_string(), amount: f.3 },
+                        accumulated_rewards: vec![],
+                    })
+                } else {
+                    None
+                };
+                SystemResult::Ok(ContractResult::Ok(to_json_binary(&DelegationResponse { delegation }).unwrap()))
             }
             QueryRequest::Staking(StakingQuery::Delegation { delegator, validator }) => {
                 let d = self.delegations.iter().find(|d| d.0 == validator && delegator == self.hub);
@@ -171,6 +191,17 @@ pub fn facts_from(q: &Value, hub: &str) -> Facts {
         cw20_balances: arr("cw20_balances").iter().map(|d| (s(&d["token"]), u(&d["balance"]))).collect(),
         failing: arr("failing").iter().map(s).collect(),
         smart: arr("smart").iter().map(|d| (s(&d["contract"]), s(&d["key"]), d["response"].clone())).collect(),
+        full_delegations: arr("full_delegations")
+            .iter()
+            .map(|d| {
+                (
+                    s(&d["validator"]),
+                    d.get("present").and_then(|x| x.as_bool()).unwrap_or(true),
+                    u(&d["amount"]),
+                    u(&d["can_redelegate"]),
+                )
+            })
+            .collect(),
     }
 }
 
